@@ -121,6 +121,31 @@ Definition gobj_fit (o : gobj) (f : gfit) : gobj :=
     let dfs := fit3_tables ax sigma spec sigs n1 in Fitted3 dfs (models3d dfs sigs)
   end.
 Definition gobj_run (o : gobj) (fits : list gfit) : gobj := fold_left gobj_fit fits o.
+
+(* The object also HOLDS its settings (center_extrema, burst_method, burst_kwargs, thresholds,
+   find_extrema_kwargs: together one option set k) as attributes, and the user may assign new values to
+   them between two fits (bg.center_extrema = 'trough', bg.thresholds = {...}, ...).  fit builds the one
+   dictionary it forwards from the attributes AT THE TIME OF THE CALL (objs/fit.py:386-392): whatever
+   option argument a gfit carries is replaced by "the object's current option set, shared by all
+   slices". *)
+Inductive gaction :=
+| ASet (k : K)            (* the option set the object holds from now on *)
+| AFit (f : gfit).        (* bg.fit(array, axis, n_jobs): the spec inside f is not used *)
+Definition with_spec (k : K) (f : gfit) : gfit :=
+  match f with
+  | Fit2 sigma _ sigs => Fit2 sigma (KwOne k) sigs
+  | Fit3 ax sigma _ sigs n1 => Fit3 ax sigma (KwOne k) sigs n1
+  end.
+Definition gstate := (K * gobj)%type.
+Definition gact (st : gstate) (a : gaction) : gstate :=
+  match a with
+  | ASet k => (k, snd st)
+  | AFit f => (fst st, gobj_fit (snd st) (with_spec (fst st) f))
+  end.
+Definition gact_run (st : gstate) (acts : list gaction) : gstate := fold_left gact acts st.
+(* the option set in force after a history: the last assignment, else the constructor's *)
+Definition current_kw (k0 : K) (acts : list gaction) : K :=
+  fold_left (fun k a => match a with ASet k' => k' | AFit _ => k end) acts k0.
 End Group.
 
 (* ------------------------------------------------------------------------------------------ *)
@@ -158,14 +183,22 @@ Definition triple_eqb (a b : nat * nat * nat) : bool :=
 Definition bad_group := report run_group (list_eqb (list_eqb triple_eqb)).
 
 
-(* the same for BycycleGroup objects: a history of fits on ONE object; observed are df_features (placement
-   triples) and, for every model, the placement triple of the table it holds and the id of the signal it
-   holds (a 2-D array is written as one row) *)
+(* the same for BycycleGroup objects: a history of fits and of re-assignments of the settings attributes on
+   ONE object, starting from the constructor's option set k0 (999: the dictionary given to the
+   constructor, 998: the documented defaults; every later assignment block gets an id of its own);
+   observed are df_features (placement triples, whose first component says WHICH option set was applied)
+   and, for every model, the placement triple of the table it holds and the id of the signal it holds
+   (a 2-D array is written as one row) *)
 Definition fit_of_case (g : gcase) : @gfit nat nat :=
   match g with
   | G2 sigma kw n0 => Fit2 sigma (spec_of kw) (seq 0 n0)
   | G3 ax sigma kw n0 n1 => Fit3 ax sigma (spec_of kw) (sig_ids n0 n1) n1
   end.
+Inductive ghist :=
+| HSet (k : nat)          (* settings attributes re-assigned: the object now holds option set k *)
+| HFit (g : gcase).       (* a fit; the option argument inside g is not used (with_spec) *)
+Definition act_of_hist (h : ghist) : @gaction nat nat :=
+  match h with HSet k => ASet k | HFit g => AFit (fit_of_case g) end.
 Definition gobs := (list (list (nat * nat * nat)) * list (list ((nat * nat * nat) * nat)))%type.
 Definition gobs_of (o : @gobj nat (nat * nat * nat)) : gobs :=
   match o with
@@ -173,8 +206,8 @@ Definition gobs_of (o : @gobj nat (nat * nat * nat)) : gobs :=
   | Fitted2 dfs ms => ([dfs], [ms])
   | Fitted3 dfs ms => (dfs, ms)
   end.
-Definition run_group_object (h : list gcase) : gobs :=
-  gobs_of (gobj_run id_cf id_epochs none_id 0 (0, 0, 0) Unfitted (map fit_of_case h)).
+Definition run_group_object (x : nat * list ghist) : gobs :=
+  gobs_of (snd (gact_run id_cf id_epochs none_id 0 (0, 0, 0) (fst x, Unfitted) (map act_of_hist (snd x)))).
 Definition gobs_eqb (a b : gobs) : bool :=
   list_eqb (list_eqb triple_eqb) (fst a) (fst b) &&
   list_eqb (list_eqb (pair_eqb triple_eqb Nat.eqb)) (snd a) (snd b).
